@@ -419,10 +419,24 @@ def do_swanmulti(rec, rng, ws, xr, d, kind):
         xs += list(x)
         ys += list(y)
     key = "swans|files=%d|nt=%d" % (nfiles, nt)
-    out = reader(rec, "swan_multi", key, lambda: __import__('wavespectra.input.swan', fromlist=['read_swans']).read_swans(list(rng.permutation(paths)), int_freq=False, int_dir=False))
+    ifq = False
+    if rng.random() < 0.35:
+        # documented reader option: the spectra of every file put on a common frequency axis (linear between the file's
+        # frequencies, the file's own values on its nodes, nothing outside its range)
+        ifq = np.sort(np.concatenate([fv[:: int(rng.integers(1, 3))], rng.uniform(fv[0] * 0.8, fv[-1] * 1.2, int(rng.integers(1, 5)))]))
+        key += "|int_freq"
+    out = reader(rec, "swan_multi", key, lambda: __import__('wavespectra.input.swan', fromlist=['read_swans']).read_swans(list(rng.permutation(paths)), int_freq=ifq, int_dir=False))
     if out is None or not times_ok(rec, "swan_multi", key, out, times):
         return
     want = np.concatenate(Es, axis=1)
+    if ifq is not False:
+        fo_ = np.asarray(out["freq"].values, dtype="float64")
+        if fo_.shape != ifq.shape or np.max(np.abs(fo_ - ifq)) > 1e-12:
+            rec.bad("swan_multi", key, {"freq_read": fo_, "freq_requested": ifq}, "swans-requested-frequencies-not-returned")
+            return
+        w_ = np.moveaxis(want, 2, -1)                                   # (..., dir, freq)
+        want = np.moveaxis(np.apply_along_axis(lambda col: np.interp(ifq, fv, col, left=0.0, right=0.0), -1, w_), -1, 2)
+        rec.note("swans_read_onto_requested_frequencies")
     got = out["efth"].transpose("time", "site", "freq", "dir").values
     if got.shape != want.shape:
         rec.bad("swan_multi", key, {"shape_read": got.shape, "shape_files": want.shape}, "swans-shape")
